@@ -68,6 +68,10 @@ pub struct Case {
     /// client subscribers saw is judged; everything else in the case is ignored when this is set
     #[serde(default)]
     pub live: Option<crate::livenet::LiveCase>,
+    /// a crowd of additional subscribers present from the start (beyond the three that the steps move in and out); every
+    /// one of them must see exactly what the others see
+    #[serde(default)]
+    pub crowd: u16,
 }
 
 fn key(k: u8) -> Vec<u8> {
@@ -165,8 +169,9 @@ impl Prop for C12 {
             1 => (0u8..3, 0u8..7, 1u8..4).prop_map(|(a, k, c)| Step::CancelledInsert { a, k, c }),
             1 => (vec(small(), 2..=5), any::<bool>()).prop_map(|(v, h)| Step::SlowMessage(v, h)),
         ];
-        let plain = (vec(step, 1..=max), prop::bool::weighted(0.3)).prop_map(|(steps, start_readonly)| Case { steps, start_readonly, live: None });
-        let live = crate::props::c04::live_case().prop_map(|l| Case { steps: vec![], start_readonly: false, live: Some(l) });
+        let crowd = prop_oneof![300 => Just(0u16), 1 => prop::sample::select(vec![31u16, 32, 33, 63, 64, 65, 127, 128, 129, 255, 256, 257])];
+        let plain = (vec(step, 1..=max), prop::bool::weighted(0.3), crowd).prop_map(|(steps, start_readonly, crowd)| Case { steps, start_readonly, live: None, crowd });
+        let live = crate::props::c04::live_case().prop_map(|l| Case { steps: vec![], start_readonly: false, live: Some(l), crowd: 0 });
         if std::env::var("DV_LIVE_ONLY").is_ok() {
             return live.boxed();
         }
@@ -272,6 +277,14 @@ fn run(ctx: &mut Ctx, c: &Case, o: &mut Outcome) -> R<()> {
         let (otx, orx) = async_channel::bounded::<Event>(4096);
         es(h.open(other, OpenOpts::default().sync().subscribe(otx.clone())).await)?;
         let mut slots: Vec<Slot> = vec![Slot::Empty, Slot::Empty, Slot::Empty];
+        for _ in 0..c.crowd {
+            let (tx, rx) = async_channel::bounded(4096);
+            es(h.subscribe(ns, tx.clone()).await)?;
+            slots.push(Slot::Active(tx, rx));
+        }
+        if c.crowd > 0 {
+            o.class("crowd-of-subscribers(31..257)");
+        }
         let mut model = Model::default();
         let mut policy = PSpec { nothing_except: false, filters: vec![] };
         let mut rejected_offer = false;
